@@ -2,7 +2,7 @@ import Ccp.Model.Tree
 /-!
 Model of the search APIs of `CiscoConfParse` (ciscoconfparse2.py) and of
 `BaseCfgLine.re_search_children` / `has_child_with` (ccp_abc.py), as the code is
-after the repairs F03–F06.
+after the repairs F03–F06 and FC04a–FC04d.
 
 The regular expression is data supplied by the caller.  Every function takes, per
 regex of the request, a *row* `List Bool`: entry `i` says whether
@@ -16,7 +16,7 @@ Results are line numbers; a branch is a list of `Option Nat` (`none` = Python `N
 namespace Ccp.Search
 open Ccp.Py Ccp.Tree
 
-inductive Err | valueError | typeError | indexError | invalidParameters
+inductive Err | valueError | indexError | invalidParameters
 deriving Repr, DecidableEq
 
 abbrev Row := List Bool
@@ -79,28 +79,30 @@ def findObjectBranches (t : T) (rs : List Row) (emptyBranches reverse : Bool) :
 def firstOf (b : Branch) : Option Nat := b.head?.bind id
 def lastOf (b : Branch) : Option Nat := b.getLast?.bind id
 
-/-- `find_parent_objects([r0, r1, …], …)`.  The list form looks at no flag but
-`escape_chars` (`re.escape(list)` raises `TypeError`); one expression is handed to
-`find_objects(parentspec[0])` without any flag; otherwise `sorted(set(branch[0] …))`. -/
-def findParentObjectsList (t : T) (rs : List Row) (escapeChars : Bool) : Except Err (List Nat) :=
-  if escapeChars then .error .typeError else
+/-- `find_parent_objects([r0, r1, …], reverse=…)`.  `escape_chars` / `ignore_ws` are applied to
+every expression of the list (they are part of the rows); one expression is handed to
+`find_objects(parentspec[0], reverse=reverse)`; otherwise `sorted(set(branch[0] …), reverse=reverse)`. -/
+def findParentObjectsList (t : T) (rs : List Row) (reverse : Bool) : Except Err (List Nat) :=
   match rs with
   | [] => .error .valueError
-  | [r] => .ok (findObjects t r false)
+  | [r] => .ok (findObjects t r reverse)
   | _ =>
     match findObjectBranches t rs false false with
-    | .ok bs => .ok (sortDedup (bs.filterMap firstOf))
+    | .ok bs =>
+      let l := sortDedup (bs.filterMap firstOf)
+      .ok (if reverse then l.reverse else l)
     | .error e => .error e
 
-/-- `find_child_objects([r0, r1, …], …)`: `sorted(set(branch[-1] …))` -/
-def findChildObjectsList (t : T) (rs : List Row) (escapeChars : Bool) : Except Err (List Nat) :=
-  if escapeChars then .error .typeError else
+/-- `find_child_objects([r0, r1, …], reverse=…)`: `sorted(set(branch[-1] …), reverse=reverse)` -/
+def findChildObjectsList (t : T) (rs : List Row) (reverse : Bool) : Except Err (List Nat) :=
   match rs with
   | [] => .error .valueError
-  | [r] => .ok (findObjects t r false)
+  | [r] => .ok (findObjects t r reverse)
   | _ =>
     match findObjectBranches t rs false false with
-    | .ok bs => .ok (sortDedup (bs.filterMap lastOf))
+    | .ok bs =>
+      let l := sortDedup (bs.filterMap lastOf)
+      .ok (if reverse then l.reverse else l)
     | .error e => .error e
 
 /-- `obj.children` or `obj.all_children` -/
@@ -116,10 +118,11 @@ def findParentObjects2 (t : T) (prow crow : Row) (recurse reverse : Bool) : List
   (findObjects t prow reverse).filter (fun p => !(reSearchChildren t p crow recurse).isEmpty)
 
 /-- `find_child_objects(parentspec, childspec, recurse=…, reverse=…)`: the matching
-(all-)children of every matching parent go into a set which is returned `sorted`, so
-`reverse` only changes the order in which the parents are visited -/
+(all-)children of every matching parent go into a set which is returned
+`sorted(retval, reverse=reverse)` -/
 def findChildObjects2 (t : T) (prow crow : Row) (recurse reverse : Bool) : List Nat :=
-  sortDedup ((findObjects t prow reverse).flatMap (fun p => reSearchChildren t p crow recurse))
+  let l := sortDedup ((findObjects t prow reverse).flatMap (fun p => reSearchChildren t p crow recurse))
+  if reverse then l.reverse else l
 
 /-- `find_parent_objects_wo_child(parentspec, childspec, recurse=…, reverse=…)` -/
 def findParentObjectsWoChild2 (t : T) (prow crow : Row) (recurse reverse : Bool) : List Nat :=
@@ -144,10 +147,9 @@ def reSearchChildrenRoot (t : T) (r : Row) (recurse : Bool) : List Nat :=
   if recurse then findObjects t r false
   else (findObjects t r false).filter (fun i => parentOf t i == i)
 
-/-- `BaseCfgLine.has_child_with(linespec, all_children)`: counts the offspring for which
-`cobj.re_search(linespec)` is *truthy*; `re_search` answers with the line's text, so a
-matching line whose text is `""` does not count -/
+/-- `BaseCfgLine.has_child_with(linespec, all_children)`: some offspring has
+`cobj.re_search(linespec, default=None) is not None` -/
 def hasChildWith (t : T) (p : Nat) (crow : Row) (allCh : Bool) : Bool :=
-  ((offspring t allCh p).filter (fun c => hit crow c && !(t.texts.getD c []).isEmpty)).length != 0
+  ((offspring t allCh p).filter (hit crow)).length != 0
 
 end Ccp.Search
